@@ -2,7 +2,8 @@ import os, sys, importlib.util
 _p = os.path.join(os.path.dirname(os.path.abspath(__file__)), "..", "trees", "treeunits.py")
 _s = importlib.util.spec_from_file_location("treeunits", _p); tu = importlib.util.module_from_spec(_s); _s.loader.exec_module(tu)
 LEVEL = "model_checking"
-UNITS = list(tu.UNITS)
+# the ptree.c walkers (lookup / foreach / clear) carry only C12 obligations and are the slowest units at the thorough bound: they run under C12
+UNITS = [u for u in tu.UNITS if u["id"].endswith("_insert") or u["id"].endswith("_remove")]
 # C13 only: the balance step at height 3 already in the quick tier (red-black / AVL fix-up cases that need a grandparent or a
 # nephew do not occur in trees of height 2).  Structural obligations only (-DBALANCE_ONLY), three cases run in parallel.
 for _tr in ("rb", "avl"):
